@@ -21,6 +21,10 @@ theorem moveFdInternal_spec (o : Oracle W) (w : W) (t : FdTable) (src : Fd) (e :
         (moveFdInternal o w t src).2.1.get n = some { ofd := e.ofd, cloexec := true } ∧
         ∀ fd, fd ≠ src → fd ≠ n → (moveFdInternal o w t src).2.1.get fd = t.get fd)) := by
   unfold moveFdInternal
+  -- the facts about `move_fd_internal` the property needs; re-extracted from yash-env/src/io.rs
+  rw [show moveThreshold = minInternalFd from rfl, show moveMin = minInternalFd from rfl,
+    show moveCloexec = true from rfl, show moveClosesOnFailure = true from rfl]
+  simp only [↓reduceIte]
   by_cases hge : minInternalFd ≤ src
   · rw [if_pos hge]
     exact ⟨rfl, fun _ => ⟨rfl, rfl⟩, fun hlt => absurd hge (Nat.not_le.mpr hlt)⟩
